@@ -763,7 +763,8 @@ def _generate_all_revisions(
                     # -- vila 20100319
                     graph = branch.repository.get_graph()
                     if start_rev_id is not None and not graph.is_ancestor(
-                        start_rev_id, end_rev_id
+                        start_rev_id,
+                        end_rev_id if end_rev_id is not None else branch.last_revision(),
                     ):
                         raise _StartNotLinearAncestor()
                     # Since we collected the revisions so far, we need to
